@@ -1656,7 +1656,15 @@ class TaskScenario(ScenarioData):
 
         # Fall back to allocate (which may contain IDs or resource objects)
         allocate = self.property.get("allocate", self.scenarioIdx) or []
+        candidates: list[Any] = []
         for res in allocate:
+            if isinstance(res, dict):
+                # Allocation with options: primary resources plus their alternatives
+                candidates.extend(res.get("resources", []))
+                candidates.extend(res.get("options", {}).get("alternative", []))
+            else:
+                candidates.append(res)
+        for res in candidates:
             if isinstance(res, str):
                 # Look up resource by ID
                 for resource in self.project.resources:
